@@ -76,7 +76,17 @@ def _run_parallel(tasks, jobs, tier, obs):
     pending = list(tasks)[::-1]
     running = {}  # conn -> (proc, task, t0)
     results = []
+    t_start = time.time()
+    budget = TIERS[tier].get("check_wall")
+    done = 0
     while pending or running:
+        if budget and pending and time.time() - t_start > budget:
+            # the check's overall wall budget is used up: what has not started is reported, never silently dropped
+            for task in pending:
+                name = obs[task[1]][0]
+                results.append(dict(name=name, params=obs[task[1]][2], status="inconclusive", asserts=[], violations=[], inconclusive=[f"not started: overall wall budget of the {tier} tier ({budget} s) exhausted"], stats={}, wall=0))
+            pending = []
+            continue
         while pending and len(running) < jobs:
             task = pending.pop()
             rd, wr = ctx.Pipe(duplex=False)
@@ -97,6 +107,9 @@ def _run_parallel(tasks, jobs, tier, obs):
             if p.is_alive():
                 p.kill()
             results.append(r)
+            done += 1
+            if done % 50 == 0:
+                print(f"  .. {done}/{len(tasks)} obligations done, {time.time() - t_start:.0f} s", file=sys.stderr, flush=True)
         now = time.time()
         for rd in list(running):
             p, task, t0 = running[rd]
